@@ -41,7 +41,8 @@ from semantiva.pipeline.graph_builder import (
     compute_upstream_map,
 )
 from semantiva.pipeline.nodes._pipeline_node_factory import _pipeline_node_factory
-from semantiva.pipeline.nodes.nodes import _PipelineNode
+from semantiva.data_types import NoDataType
+from semantiva.pipeline.nodes.nodes import _DataNode, _PipelineNode
 from semantiva.pipeline.payload import Payload
 from semantiva.registry.descriptors import instantiate_from_descriptor
 from semantiva.metadata import (
@@ -588,7 +589,16 @@ class SemantivaOrchestrator(ABC):
             }
         )
         input_expected = getattr(node.processor, "input_data_type", lambda: None)()
-        checks.append(self._type_check_entry("input_type_ok", input_expected, data))
+        checked_data = data
+        if not isinstance(node, _DataNode):
+            # Context-only nodes have no input-type gate: any data is acceptable.
+            input_expected = None
+        elif data is None and input_expected is NoDataType:
+            # Same normalisation the node applies before its own gate.
+            checked_data = NoDataType()
+        checks.append(
+            self._type_check_entry("input_type_ok", input_expected, checked_data)
+        )
         invalid = getattr(node, "invalid_parameters", None)
         if invalid is not None:
             invalid_serialized = serialize_json_safe(invalid)
